@@ -266,6 +266,20 @@ pub fn run(ctx: &Ctx, sh: &mut Shard) {
             let q = interesting_point(&mut r, &b, g);
             check_coord(sh, &b, q, &lat, false);
         }
+        // an operand of realistic size: the middle of EVERY segment and every vertex is queried once (on the doubled
+        // lattice, where every midpoint is a lattice point), so that no stretch of a long component goes unvisited
+        for x in [&a, &b] {
+            if x.n_segments() > 30 && x.n_segments() <= 400 {
+                let x2 = x.map(&|p| (2 * p.0, 2 * p.1));
+                sh.class("coord_queries:every_segment_of_a_long_operand");
+                for (p, q) in all_segments_pub(&x2) {
+                    check_coord(sh, &x2, ((p.0 + q.0) / 2, (p.1 + q.1) / 2), &lat, false);
+                }
+                for v in x2.coords() {
+                    check_coord(sh, &x2, v, &lat, false);
+                }
+            }
+        }
     }
 }
 
